@@ -65,7 +65,8 @@ def run(chk, replay=None):
         chk.tlc('CatEval', 'MCT_CatEval.cfg', timeout=1800)
         res = chk.tlc('GenCatEval', 'GenT_CatEval.cfg', workers=1, coverage=False, count_states=False, timeout=1800)
         more = res.tagged.get('CASE', [])
-        cases = cases[::2] + more[::6]
+        pick_t = random.Random(chk.seed * 7919 + 110)
+        cases = [c for c in cases if pick_t.random() < 0.5] + [c for c in more if pick_t.random() < 1.0 / 6]
     chk.log('Gen: %d cases to drive' % len(cases))
 
     TESTS = [('n', ce.number_test, {'verbose': False}), ('s', ce.spatial_test, {'verbose': False}),
@@ -179,11 +180,12 @@ def run(chk, replay=None):
 
     records, runs = [], []
     step = 12 if quick else 1
+    pick = random.Random(chk.seed * 7919 + 10)      # (pseudo-random rather than a stride: TLC emits cases in a regular order)
     for ci, case in enumerate(cases):
-        if quick and (ci + chk.seed) % step:
+        if quick and pick.random() >= 1.0 / step:
             continue
         cats_abs, obs_abs = case['cats'], case['obs']
-        src = ['list', 'nostore', 'store'][ci % 3]
+        src = pick.choice(['list', 'nostore', 'store'])
         got, hists = evaluate(cats_abs, obs_abs, src)
         records.append({'cats': cats_abs, 'obs': obs_abs, 'rm': hists['rm'], 'mll': hists['mll']})
         runs.append((got, src))
